@@ -358,9 +358,20 @@ class Summariser:
 
     def _texts(self, p):
         yield p.value or ""
-        for e, _ in flat_effects(p.effects):
-            for x in e[1:]:
-                yield str(x)
+
+        def walk(effects):
+            for e in effects:
+                if e[0] == "rep":
+                    yield str(e[1])
+                    yield from walk(e[2])
+                elif e[0] == "if":
+                    yield from walk(e[2])
+                    yield from walk(e[3])
+                else:
+                    for x in e[1:]:
+                        yield str(x)
+
+        yield from walk(p.effects)
 
     def _find_conditional(self, p):
         """A loop-independent condition on which a value of this path still depends."""
@@ -403,7 +414,7 @@ class Summariser:
             res = []
             for e in effects:
                 if e[0] == "rep":
-                    res.append(("rep", e[1], tuple(sub_eff(e[2]))))
+                    res.append(("rep", sub(e[1]), tuple(sub_eff(e[2]))))
                 elif e[0] == "if":
                     if e[1] == ctext:
                         res.extend(sub_eff(e[2] if branch else e[3]))
@@ -545,7 +556,11 @@ class Summariser:
         if swapped:
             a, b = b, a
         if boolean_parts:
-            return _if_part(ctext, a, b)
+            part = _if_part(ctext, a, b)
+            if part[0] == "if" and self.depth == 0:
+                # a top-level choice between two element lists: splittable by finalise() wherever its text occurs
+                self.condterms[show_part(part)] = (ctext, ", ".join(show_part(x) for x in a), ", ".join(show_part(x) for x in b))
+            return part
         return ("if", ctext, a, b)
 
     def merge(self, cpair, a: State, b: State) -> State:
